@@ -85,6 +85,9 @@ func binaryPower(t int) int {
 // parse parses an expression whose operators all bind at least as tightly as minBP.
 func (r *verifRef) parse(minBP int) *VerifNode {
 	var left *VerifNode
+	// level of the expression built so far: an operator can only take it as its left
+	// operand when it does not bind tighter than that level
+	level := bpPow + 1
 	if minBP <= bpNot && r.peek(0) == Not {
 		t := r.toks[r.pos]
 		r.pos++
@@ -93,15 +96,13 @@ func (r *verifRef) parse(minBP int) *VerifNode {
 			return nil
 		}
 		left = &VerifNode{Kind: Not, Tok: t, Args: []*VerifNode{operand}}
+		level = bpNot // a prefix-NOT expression can only be the operand of a logical operator
 	} else {
 		left = r.primary()
 		if !r.ok {
 			return nil
 		}
 	}
-	// level of the expression built so far: an operator can only take it as its left
-	// operand when it does not bind tighter than that level
-	level := bpPow + 1
 	for r.ok {
 		t0 := r.peek(0)
 		// postfix tests live on the additive level
